@@ -707,3 +707,111 @@ func TestRegressionF5(t *testing.T) {
 		evid.Infra(t, "steering never reached the leading-zero slice")
 	}
 }
+
+// TestPACERerun: the same Pace object runs DoPACE more than once.  (a) After a first run
+// that a deviating chip made fail, the second run against the genuine chip must succeed
+// with everything the success clause demands (nothing of the failed run may linger);
+// (b) after a successful run and a lost session, a second successful run ends with fresh
+// keys; (c) after a successful run, a second run against a chip with an altered token
+// must fail closed (the session of the first run must not be "inherited").
+func TestPACERerun(t *testing.T) {
+	evid.RapidCheck(t, 480, 12000, func(rt *rapid.T) {
+		c := drawCase(rt, false)
+		mode := rapid.SampledFrom([]string{"fail-then-genuine", "genuine-twice", "genuine-then-altered"}).Draw(rt, "mode")
+		c.Deviation = "rerun-" + mode
+		dev := deviations[rapid.SampledFrom([]int{0, 2, 7, 12, 15}).Draw(rt, "dev")]
+		if dev.camOnly {
+			dev = deviations[12]
+		}
+		r := detrand.New(c.DevSeed)
+		var deviating *built
+		deviating = build(c, func(step string, v []byte) []byte {
+			if step != dev.step {
+				return v
+			}
+			return dev.alter(v, c, func() *chipsim.Chip { return deviating.chip }, r)
+		})
+		genuine1, genuine2 := build(c, nil), build(c, nil)
+		// different chip randomness for the second genuine chip
+		genuine2.chip.Cfg.Rand = detrand.New(append([]byte("second"), c.ChipSeed...)).Bytes
+		pass, err := makePassword(c, false, rt)
+		if err != nil {
+			evid.Fail(rt, "rerun-password", c.repro(), "library rejects a valid MRZ: %v", err)
+		}
+		restore := detrand.Install(c.LibSeed)
+		defer restore()
+		lk := &swapLink{}
+		o := &outcome{doc: &document.Document{}}
+		o.nfc = iso7816.NewNfcSession(lk)
+		ca, err := document.NewCardAccess(genuine1.cardAccess)
+		if err != nil {
+			evid.Infra(rt, "NewCardAccess: %v", err)
+		}
+		o.doc.Mf.CardAccess = ca
+		p := pace.NewPace(o.nfc, o.doc, pass)
+		rep := c.repro()
+		rep["mode"], rep["firstDeviation"] = mode, dev.name
+		evid.Case("rerun-"+mode, true, c.key()+mode+dev.name, rep)
+		run := func(b *built) {
+			lk.t = b.chip
+			o.res, o.cam, o.err = p.DoPACE()
+		}
+		switch mode {
+		case "fail-then-genuine":
+			run(deviating)
+			if msg := checkClosed(o); msg != "" {
+				return // the single-run property owns this; here only the second run is judged
+			}
+			run(genuine1)
+			if f5Excluded(slices(genuine1)) {
+				evid.Excluded(f5)
+				return
+			}
+			if msg := checkInterop(c, genuine1, o); msg != "" {
+				evid.Fail(rt, "rerun-after-failure", rep, "second DoPACE of the same object, against the genuine chip after a failed first run: %s", msg)
+			}
+		case "genuine-twice":
+			run(genuine1)
+			if f5Excluded(slices(genuine1)) {
+				evid.Excluded(f5)
+				return
+			}
+			if msg := checkInterop(c, genuine1, o); msg != "" {
+				return
+			}
+			k1 := bytes.Clone(o.nfc.SM().KsEnc())
+			o.nfc.SetSecureMessaging(nil) // the session is lost
+			run(genuine2)
+			if f5Excluded(slices(genuine2)) {
+				evid.Excluded(f5)
+				return
+			}
+			if msg := checkInterop(c, genuine2, o); msg != "" {
+				evid.Fail(rt, "rerun-genuine", rep, "second DoPACE of the same object against the genuine chip: %s", msg)
+			}
+			if bytes.Equal(k1, o.nfc.SM().KsEnc()) {
+				evid.Fail(rt, "rerun-genuine", rep, "the second run ended with the session key of the first")
+			}
+		default:
+			run(genuine1)
+			if o.err != nil {
+				return
+			}
+			o.nfc.SetSecureMessaging(nil)
+			run(deviating)
+			if dev.step == "pace-ecad" {
+				return
+			}
+			if msg := checkClosed(o); msg != "" {
+				evid.Fail(rt, "rerun-altered", rep, "second DoPACE of the same object against a chip with an altered message (%s) after a successful first run: %s", dev.name, msg)
+			}
+		}
+	})
+}
+
+// swapLink lets a test exchange the counterpart behind an NfcSession.
+type swapLink struct{ t iso7816.Transceiver }
+
+func (l *swapLink) Transceive(cla, ins, p1, p2 int, data []byte, le int, encoded []byte) []byte {
+	return l.t.Transceive(cla, ins, p1, p2, data, le, encoded)
+}
